@@ -45,14 +45,32 @@ Cat(A, B) == {a \o b : a \in A, b \in B}
 Opt(A) == {<<>>} \cup A
 W(w) == {<<w>>}
 
-Needs == { <<"elapsed", ">=", "1.0">>, <<"recurred", "re", "me", "==", "2">>, <<"elapsed", "re", ">=", "goal">>,
-           <<".s.a", "==", "1">>, <<".s.a", "==", "1", "+-", "0.5">>, <<"not", ".s.a">>, <<"x", "in", ".s.b", ">", "y", "in", ".s.b">>,
-           <<".s.a", "<=", ".s.c">>, <<".s.a", "!=", ".s.b">>, <<"s.r", "of", "me">>, <<"s.r", "of", "frame", "f2", "!=", "\"no\"">>,
-           <<"ax", "is", "done">>, <<"any", "is", "done">>, <<"all", "in", "frame", "f1", "is", "done">>,
-           <<"aux", "ax", "in", "frame", "f1", "in", "framer", "fr", "is", "done">>, <<"sl", "is", "stopped">>,
-           <<"fr", "is", "running">>, <<".s.a", "is", "updated">>, <<".s.a", "is", "changed", "in", "frame", "f2", "by", "mk">>,
-           <<".s.a", "is", "updated", "in", "frame">> }
-Conj == Needs \cup Cat(Needs, Cat(W("and"), {<<".s.a", "==", "1">>, <<"not", ".s.a">>, <<"ax", "is", "done">>}))
+\* every documented form of a need (docstring of Builder.makeNeed)
+BasicNeeds == { <<"elapsed", ">=", "1.0">>, <<"recurred", "re", "me", "==", "2">>, <<"elapsed", "re", ">=", "goal">>,
+                <<"elapsed", "re", "fr", ">=", "goal">>, <<"recurred", ">=", "2">>,
+                <<".s.a", "==", "1">>, <<".s.a", "==", "1", "+-", "0.5">>, <<"not", ".s.a">>, <<"x", "in", ".s.b", ">", "y", "in", ".s.b">>,
+                <<".s.a", "<=", ".s.c">>, <<".s.a", "!=", ".s.b">>, <<"s.r", "of", "me">>, <<"s.r", "of", "frame", "f2", "!=", "\"no\"">> }
+\* if taskername is done | if (aux auxname, any, all) [in frame [(me, framename)] [in framer [(me, framername)]]] is done
+\*                       | if ([aux] auxname, any, all) in frame ... | in framer [(me, framername)] is done
+Who == { <<"aux", "ax">>, <<"ax">>, <<"any">>, <<"all">> }
+InFrame == { <<>>, <<"in", "frame">>, <<"in", "frame", "me">>, <<"in", "frame", "f1">> }
+InFramer == { <<>>, <<"in", "framer">>, <<"in", "framer", "me">>, <<"in", "framer", "fr">> }
+DoneNeeds == Cat(Who, Cat(InFrame, Cat(InFramer, {<<"is", "done">>}))) \cup {<<"not", "ax", "is", "done">>, <<"fr", "is", "done">>}
+\* if taskername is (readied, started, running, stopped, aborted)
+StatusNeeds == Cat({<<"sl">>, <<"fr">>, <<"ax">>, <<"ia">>, <<"lg">>},
+                   Cat(W("is"), {<<"readied">>, <<"started">>, <<"running">>, <<"stopped">>, <<"aborted">>}))
+\* if indirect is (updated, changed) [in frame [(me, framename)]] [by marker]   (the two clauses in either order)
+MarkFrame == { <<"in", "frame">>, <<"in", "frame", "me">>, <<"in", "frame", "f2">>, <<"in", "frame", "f1">> }
+MarkBy == { <<"by", "mk">>, <<"by", "\"m k\"">> }
+MarkerNeeds == Cat({<<".s.a">>, <<"s.r", "of", "frame">>},
+                   Cat(W("is"), Cat({<<"updated">>, <<"changed">>},
+                       {<<>>} \cup MarkFrame \cup MarkBy \cup Cat(MarkFrame, MarkBy) \cup Cat(MarkBy, MarkFrame))))
+Needs == BasicNeeds \cup DoneNeeds \cup StatusNeeds \cup MarkerNeeds
+AndTails == {<<".s.a", "==", "1">>, <<"not", ".s.a">>, <<"ax", "is", "done">>, <<"ax", "in", "frame", "f1", "is", "done">>,
+             <<".s.a", "is", "updated", "in", "frame">>}
+ConjHeads == BasicNeeds \cup {<<"ax", "in", "frame", "f1", "is", "done">>, <<"aux", "ax", "is", "done">>, <<"sl", "is", "stopped">>,
+                              <<".s.a", "is", "changed", "in", "frame", "f2", "by", "mk">>, <<".s.a", "is", "updated", "in", "frame">>}
+Conj == Cat(ConjHeads, Cat(W("and"), AndTails))
 Data == { <<"3">>, <<"value", "3">>, <<"x", "1", "y", "2.5">>, <<"\"str ing\"">>, <<"t", "true", "n", "none">>, <<".p.q">>,
           <<"45N30.5">>, <<"1x2y">>, <<"0x1f">>, <<"x", "-2">> }
 Source == { <<".s.a">>, <<"x", "in", ".s.b">>, <<"x", "y", "in", ".s.b">>, <<"s.r", "of", "me">>, <<"s.t", "of", "framer">>,
@@ -76,11 +94,12 @@ Body ==
     \cup Cat(W("set"), {<<"elapsed", "with", "2.0">>, <<"recurred", "to", "2">>, <<"elapsed", "from", ".s.c">>, <<"recurred", "by", ".s.c">>,
                         <<".s.g", "with", "3">>, <<".s.g", "from", ".s.a">>, <<"goal.speed", "with", "x", "1", "y", "2">>})
     \cup Cat(W("aux"), {<<"ax">>, <<"mo", "as", "mine">>, <<"mo", "as", "cl1">>, <<"mo", "as", "cl2", "via", ".n.c">>, <<"mo", "via", "mine", "as", "cl3">>})
-    \cup Cat({<<"aux", "ax", "if">>}, Conj \ {q \in Conj : q[1] \in {"ax", "any", "all", "aux"}})
+    \cup Cat({<<"aux", "ax", "if">>}, {q \in BasicNeeds \cup StatusNeeds \cup MarkerNeeds \cup Conj : q[1] \notin {"ax", "any", "all", "aux"}})
     \cup Cat(W("rear"), {<<"mo", "in", "frame", "f2">>, <<"mo", "as", "mine", "be", "aux", "in", "frame", "f2">>, <<"mo", "be", "aux", "in", "frame", "f2", "as", "mine">>})
     \cup Cat(W("raze"), Cat({<<"all">>, <<"first">>, <<"last">>}, Opt({<<"in", "frame">>, <<"in", "frame", "f2">>, <<"in", "frame", "me">>})))
-    \cup Cat(W("go"), Cat({<<"f2">>, <<"next">>, <<"me">>}, Opt(Cat(W("if"), Conj))))
-    \cup Cat(W("let"), Cat(Opt(W("me")), Cat(W("if"), Conj)))
+    \cup Cat({<<"go", "f2">>}, Opt(Cat(W("if"), Needs \cup Conj)))
+    \cup Cat(W("go"), Cat({<<"next">>, <<"me">>}, Opt(Cat(W("if"), BasicNeeds))))
+    \cup Cat({<<"let", "if">>}, Needs) \cup Cat({<<"let", "me", "if">>}, BasicNeeds \cup Conj)
     \cup Cat({<<"do", "vfrec">>}, Opt(DoClauses))
     \cup Cat({<<"do", "vfrec">>}, {a \o b : a \in DoClauses, b \in DoClauses} \ {a \o a : a \in DoClauses})
     \cup Cat(W("bid"), Cat({<<"stop">>, <<"start">>, <<"run">>, <<"abort">>, <<"ready">>},
@@ -103,12 +122,16 @@ Faulty == { <<"go", "nowhere">>, <<"aux", "nobody">>,
             \* a tasker of the wrong kind where a framer / slave is named (lg is the logger, sv the server, fr an active framer)
             <<"aux", "lg">>, <<"aux", "sv">>, <<"aux", "lg", "as", "mine">>, <<"aux", "lg", "if", ".s.a">>, <<"done", "lg">>,
             <<"ready", "lg">>, <<"rear", "lg", "in", "frame", "f2">>, <<"go", "f2", "if", "aux", "lg", "is", "done">>,
+            \* a clone whose full name (framer_tag) is the name of another framer
+            <<"aux", "mo", "as", "dup">>,
             \* a long word that is no path, wherever a path is read
             <<"put", "1", "into", LongWord>>, <<"put", LongWord, "into", ".s.a">>, <<"copy", LongWord, "into", ".s.a">>,
             <<"inc", LongWord, "with", "1">>, <<"set", LongWord, "with", "1">>, <<"go", "f2", "if", LongWord>>,
             <<"go", "f2", "if", ".s.a", "==", LongWord>>, <<"do", "vfrec", "via", LongWord>>, <<"do", "vfrec", "per", "ia", LongWord>>,
             <<"bid", "stop", "me", "at", LongWord>>, <<"aux", "mo", "as", "cl9", "via", LongWord>> }
 \* (.s.v holds only `value`, .s.w holds x and y; no valid command form touches them)
+\* commands that may not be repeated, written once more at the end of the script
+FaultyTop == { <<"house", "h1">>, <<"server", "sv">>, <<"logger", "lg">>, <<"framer", "fr">>, <<"framer", "lg">>, <<"log", "l1">> }
 
 \* commands before / after the body; the body stands in frame f1 of framer fr
 SkeletonHead == << <<"house", "h1">>, <<"init", ".s.a", "with", "value", "1">>, <<"init", ".s.b", "with", "x", "1", "y", "2">>,
@@ -117,9 +140,11 @@ SkeletonHead == << <<"house", "h1">>, <<"init", ".s.a", "with", "value", "1">>, 
                    <<"framer", "mo", "be", "moot", "first", "m1", "via", ".n.m">>, <<"frame", "m1">>, <<"print", "moot">>,
                    <<"framer", "ax", "be", "aux">>, <<"frame", "a1", "via", "n.a">>, <<"done", "me">>,
                    <<"framer", "sl", "be", "slave", "at", "0.25">>, <<"frame", "s1">>, <<"print", "slave">>,
-                   <<"framer", "fr", "be", "active", "at", "0.125", "in", "front", "first", "f1">>, <<"frame", "f1">>, <<"aux", "ax">> >>
+                   <<"framer", "fr", "be", "active", "at", "0.125", "in", "front", "first", "f1">>, <<"frame", "f1">>, <<"aux", "ax">>,
+                   \* doers the script names like the marker kinds, in a frame that needs mark
+                   <<"do", "vfrec", "as", "marker", "update", "at", "enter">>, <<"do", "vfrec", "as", "marker", "change", "at", "enter">> >>
 SkeletonTail == << <<"frame", "f2">>, <<"print", "two">>, <<"frame", "f3", "in", "f2">>, <<"frame", "f4", "in", "f1">>, <<"frame", "f5", "in", "f1">>, <<"first", "f1">>,
-                   <<"framer", "ia", "be", "inactive", "in", "back">>, <<"frame", "i1">>,
+                   <<"framer", "ia", "be", "inactive", "in", "back">>, <<"frame", "i1">>, <<"framer", "fr_dup", "be", "inactive">>, <<"frame", "d1">>,
                    <<"logger", "lg", "to", "LOGDIR", "at", "0.5", "flush", "2", "keep", "1", "cycle", "60", "size", "2048", "reuse">>,
                    <<"log", "l1", "to", "fl1", "as", "text", "on", "update">>, <<"loggee", ".s.a", "as", "sa", "x", "in", ".s.b">>,
                    <<"log", "l2", "on", "streak">>, <<"loggee", "x", "in", ".s.b", "as", "xb">>,
@@ -160,6 +185,11 @@ AddFaulty == /\ ~fin /\ nadd < want.add /\ ~faulty /\ verb = ""
              /\ nadd' = nadd + 1 /\ faulty' = TRUE
              /\ UNCHANGED <<base, want, nmut, at, log, fin, verb>>
 
+AddFaultyTop == /\ ~fin /\ nadd < want.add /\ ~faulty /\ verb = ""
+                /\ \E c \in FaultyTop : script' = Append(script, c)
+                /\ nadd' = nadd + 1 /\ faulty' = TRUE
+                /\ UNCHANGED <<base, want, nmut, at, log, fin, verb>>
+
 Adding == nadd < want.add
 Pick == /\ ~fin /\ ~Adding /\ nmut < want.mut /\ at = <<0, 0>>
         /\ \E i \in 1..Len(script) : \E j \in 1..Len(script[i]) : at' = <<i, j>>
@@ -194,7 +224,7 @@ Finish == /\ ~fin /\ ~Adding /\ nmut = want.mut /\ at = <<0, 0>>
           /\ PrintT(ToJson([base |-> base, nmut |-> nmut, log |-> log, script |-> script, allowed |-> Allowed, faulty |-> faulty]))
           /\ UNCHANGED <<base, script, want, nadd, nmut, at, log, faulty, verb>>
 
-Next == PickVerb \/ AddCmd \/ AddFaulty \/ Pick \/ Delete \/ Duplicate \/ Swap \/ ReplaceReserved \/ ReplaceGarbage \/ Truncate \/ InsertConnective \/ Finish
+Next == PickVerb \/ AddCmd \/ AddFaulty \/ AddFaultyTop \/ Pick \/ Delete \/ Duplicate \/ Swap \/ ReplaceReserved \/ ReplaceGarbage \/ Truncate \/ InsertConnective \/ Finish
 Spec == Init /\ [][Next]_vars
 
 \* ------------------------------------------------------------------ properties of the model
@@ -204,6 +234,6 @@ TypeOK == /\ nadd \in 0..MaxAdd /\ nmut \in 0..MaxMut
 \* a mutation changes exactly one command
 OneCommand == [][nmut' = nmut + 1 => Cardinality({i \in 1..Len(script) : script'[i] # script[i]}) <= 1 /\ Len(script') = Len(script)]_vars
 \* every command form of the grammar starts with a verb
-GrammarOK == \A c \in Body \cup Faulty : c[1] \in Verbs
+GrammarOK == \A c \in Body \cup Faulty \cup FaultyTop : c[1] \in Verbs
 ASSUME GrammarOK
 =============================================================================
